@@ -51,6 +51,9 @@ macro_rules! show_tuple { ($($n:ident),+) => {
 } }
 show_tuple!(T1, T2); show_tuple!(T1, T2, T3); show_tuple!(T1, T2, T3, T4); show_tuple!(T1, T2, T3, T4, T5); show_tuple!(T1, T2, T3, T4, T5, T6);
 show_tuple!(T1, T2, T3, T4, T5, T6, T7); show_tuple!(T1, T2, T3, T4, T5, T6, T7, T8);
+show_tuple!(T1, T2, T3, T4, T5, T6, T7, T8, T9); show_tuple!(T1, T2, T3, T4, T5, T6, T7, T8, T9, T10);
+show_tuple!(T1, T2, T3, T4, T5, T6, T7, T8, T9, T10, T11); show_tuple!(T1, T2, T3, T4, T5, T6, T7, T8, T9, T10, T11, T12);
+show_tuple!(T1, T2, T3, T4, T5, T6, T7, T8, T9, T10, T11, T12, T13); show_tuple!(T1, T2, T3, T4, T5, T6, T7, T8, T9, T10, T11, T12, T13, T14);
 pub fn mix(v: i64, c: i64) -> i64 { (v * 7 + c).rem_euclid(1000003) }
 pub type R = Result<i64, i64>;
 #[derive(Clone, Copy)] pub enum Out { O(i64), E(i64), P }
@@ -858,7 +861,10 @@ CH_OPS = {
         ("->", "Ok::<i64, i64>", "({O})({P})", "Res"),
         ("..", "wrapping_mul({c})", "{P}.{O}", "Int"),
         ("->", "|v: i64| vec![v, v + 1, {c}].into_iter()", "({O})({P})", "Iter"),
+        ("->", "|v: i64| (v, v + {c})", "({O})({P})", "Pair"),
     ],
+    # member access whose member is a tuple index: `pair ..0` = `pair.0`
+    "Pair": [("..", "0", "{P}.{O}", "Int"), (">.", "1", "{P}.{O}", "Int"), ("..", "1", "{P}.{O}", "Int")],
     "Iter": [
         ("|>", "|v| {{ t({id}); v * 2 + {c} }}", "{P}.map({O})", "Iter"),
         ("?>", "|v| {{ t({id}); v % 2 == 0 }}", "{P}.filter({O})", "Iter"),
@@ -918,7 +924,7 @@ CH_INIT = {
     "Int": ["{c}i64", "-{c}i64", "{c}i64 + 1", "{{ {c}i64 }}", "3i64 | {c}i64"],
     "Iter": ["vec![1i64, 2, 3, {c}].into_iter()", "Vec::<i64>::new().into_iter()", "vec![{c}i64, -4, 7, 10, 11].into_iter()"],
 }
-CH_TYPE = {"Opt": "Option<i64>", "Res": "Result<i64, i64>", "Int": "i64", "VecI": "Vec<i64>", "Part": "(Vec<i64>, Vec<i64>)",
+CH_TYPE = {"Pair": "(i64, i64)", "Opt": "Option<i64>", "Res": "Result<i64, i64>", "Int": "i64", "VecI": "Vec<i64>", "Part": "(Vec<i64>, Vec<i64>)",
            "Unz": "(Vec<i64>, Vec<i64>)", "UnzU": "(Vec<usize>, Vec<i64>)", "Usize": "usize"}
 CH_FINALIZE = {"Iter": ("=>[] Vec<i64>", "{P}.collect::<Vec<i64>>()", "VecI"), "Iter0": ("=>[] Vec<i64>", "{P}.collect::<Vec<i64>>()", "VecI"),
                "EnumIter": ("|> |(i, v)| v + i as i64 =>[] Vec<i64>", "{P}.map(|(i, v)| v + i as i64).collect::<Vec<i64>>()", "VecI"),
@@ -1016,7 +1022,7 @@ CH_WRAP_BLOCK = {
             ("=> >>> -> {{ t({id}); |x: i64| Ok::<i64, i64>(x + {c}) }} <<<",
              "{{ let __b = {{ t({id}); |x: i64| Ok::<i64, i64>(x + {c}) }}; {P}.and_then(move |__v| (__b)(__v)) }}", "Res")],
 }
-_MATRIX_PREFIX = {"Opt": ("Opt", []), "Res": ("Res", []), "Int": ("Int", []), "Iter": ("Iter", []),
+_MATRIX_PREFIX = {"Pair": ("Int", [("->", "|v: i64| (v, v + {c})", "({O})({P})", "Pair")]), "Opt": ("Opt", []), "Res": ("Res", []), "Int": ("Int", []), "Iter": ("Iter", []),
                   "NestIter": ("Iter", [("|>", "|v| vec![v, v + {c}]", "{P}.map({O})", "NestIter")]),
                   "EnumIter": ("Iter", [("|n>", "", "{P}.enumerate()", "EnumIter")]),
                   "PairIter": ("Iter", [(">^>", "vec![{c}i64, 7, 9].into_iter()", "{P}.zip({O})", "PairIter")]),
@@ -1181,6 +1187,11 @@ class FixedChainProg(ChainProg):
 # initial expressions of lower precedence than a method call (defect fixed in /repo 2872bae), in every sync macro
 REGRESSION_CHAINS = [
     ("-5i32 ..abs()", "(-5i32).abs()", "i32"),
+    # tuple-index members, also deferred and after a multi-operand operator
+    ("(1i64, 2i64) ..0", "(1i64, 2i64).0", "i64"),
+    ("(1i64, (2i64, 3i64)) ~..1 ~>. 0", "((1i64, (2i64, 3i64)).1).0", "i64"),
+    ("vec![1i64, 2, 3].into_iter() |n> <-> usize, i64, Vec<usize>, Vec<i64> ..1 ..len()",
+     "vec![1i64, 2, 3].into_iter().enumerate().unzip::<usize, i64, Vec<usize>, Vec<i64>>().1.len()", "usize"),
     ("1u32 | 2u32 ..count_ones()", "(1u32 | 2u32).count_ones()", "u32"),
     ("2i64 + 3 -> |v: i64| v * 2", "(|v: i64| v * 2)(2i64 + 3)", "i64"),
     ("Some(1i64) == None |> |b: bool| !b ..then(|| 1i64)", "(Some(1i64) == None).then(|| 1i64)", "Option<i64>")[:0] or
@@ -1259,6 +1270,116 @@ def run_chain_programs(ctx, progs, crate="k2chains"):
     lines = dict(l.split("\t", 1) for l in out.splitlines() if "\t" in l)
     ctx.evals += len(progs)
     return [(p, lines.get(p.pid, "MISSING")) for p in progs], log
+
+
+# ------------------------------------------------------------------------------------------------
+# hygiene: a caller's variable keeps its meaning inside a macro body, whatever it is called
+
+RUST_KEYWORDS = set("as break const continue crate else enum extern false fn for if impl in let loop match mod move mut pub ref return "
+                    "self Self static struct super trait true type unsafe use where while async await dyn abstract become box do final "
+                    "macro override priv typeof unsized virtual yield try union gen _".split())
+
+HYG_SYNC = ("1i64 -> move |hyg_v: i64| hyg_v + {X}, {{ {X} }} -> move |hyg_w: i64| hyg_w * 2 ~-> move |hyg_w: i64| hyg_w + {X}, "
+            "3i64 ~-> {{ let hyg_k = {X}; move |hyg_w: i64| hyg_w + hyg_k }}, "
+            "then => move |hyg_a: i64, hyg_b: i64, hyg_c: i64| (hyg_a, hyg_b, hyg_c + {X})")
+HYG_TRY = ("Some(1i64) |> move |hyg_v: i64| hyg_v + {X}, {{ Some({X}) }} |> move |hyg_w: i64| hyg_w * 2 ~|> move |hyg_w: i64| hyg_w + {X}, "
+           "Some(3i64) ~|> {{ let hyg_k = {X}; move |hyg_w: i64| hyg_w + hyg_k }}, "
+           "map => move |hyg_a: i64, hyg_b: i64, hyg_c: i64| (hyg_a, hyg_b, hyg_c + {X})")
+HYG_ASYNC = ("::futures::future::ready(1i64) |> move |hyg_v: i64| hyg_v + {X}, {{ ::futures::future::ready({X}) }} |> move |hyg_w: i64| hyg_w * 2 "
+             "~|> move |hyg_w: i64| hyg_w + {X}, ::futures::future::ready(3i64) ~|> {{ let hyg_k = {X}; move |hyg_w: i64| hyg_w + hyg_k }}, "
+             "then => move |hyg_a: i64, hyg_b: i64, hyg_c: i64| ::futures::future::ready((hyg_a, hyg_b, hyg_c + {X}))")
+HYG_ASYNC_TRY = ("::futures::future::ok::<i64, i64>(1) |> move |hyg_v: Result<i64, i64>| hyg_v.map(|hyg_v| hyg_v + {X}), "
+                 "{{ ::futures::future::ok::<i64, i64>({X}) }} |> move |hyg_w: Result<i64, i64>| hyg_w.map(|hyg_w| hyg_w * 2) "
+                 "~|> move |hyg_w: Result<i64, i64>| hyg_w.map(|hyg_w| hyg_w + {X}), "
+                 "::futures::future::ok::<i64, i64>(3) ~|> {{ let hyg_k = {X}; move |hyg_w: Result<i64, i64>| hyg_w.map(|hyg_w| hyg_w + hyg_k) }}, "
+                 "and_then => move |hyg_a: i64, hyg_b: i64, hyg_c: i64| ::futures::future::ok::<(i64, i64, i64), i64>((hyg_a, hyg_b, hyg_c + {X}))")
+# nothing in the probe's own text is a plain lower-case name that a candidate could shadow: paths are absolute, helpers `hyg_…`
+HYG_MAIN = r"""
+fn hyg_rt() -> ::tokio::runtime::Runtime { ::tokio::runtime::Builder::new_multi_thread().worker_threads(2).enable_all().build().unwrap() }
+fn main() {
+    let progs: Vec<(&str, fn() -> String)> = vec![%s];
+    for (name, f) in progs { println!("{}\t{}", name, f()); }
+}
+"""
+
+
+def bound_name_candidates(outs, input_words=()):
+    """Identifiers written by the expansion itself (lower-case, not `__…`, not keywords): the names a careless `let`, closure
+    parameter or match arm of the expansion could capture from the caller."""
+    ids = set()
+    for o in outs:
+        ids.update(w[2:] for w in o.split(" ") if w[:2] == "i:")
+    return sorted(x for x in ids if not x.startswith("__") and x not in RUST_KEYWORDS and x not in input_words
+                  and re.match(r"^[a-z][a-z0-9_]*$", x) and not re.match(r"^[a-z]\d+$", x) and not x.startswith("hyg_"))
+
+
+def in_binding_position(x, outs):
+    """`let x`, `let mut x`, `|x|`, `|x:`, `|…, x`, `Ok(x)` / `Err(x)` / `Some(x)` somewhere in the expansions"""
+    w = "i:" + x
+    for o in outs:
+        t = o.split(" ")
+        for i, tok in enumerate(t):
+            if tok != w:
+                continue
+            prev, prev2 = (t[i - 1] if i else ""), (t[i - 2] if i > 1 else "")
+            nxt = t[i + 1] if i + 1 < len(t) else ""
+            if prev == "i:let" or (prev == "i:mut" and prev2 == "i:let") or prev in ("i:static", "i:const", "i:ref"):
+                return True
+            if prev.startswith("p:|") and (nxt.startswith("p:|") or nxt.startswith("p::") or nxt.startswith("p:,")):
+                return True
+            if prev == "(" and nxt == ")" and prev2 in ("i:Ok", "i:Err", "i:Some"):
+                return True
+    return False
+
+
+def run_hygiene_programs(ctx, candidates, kinds=None):
+    """For every candidate name X and every macro: the same program once with a caller variable called X and once with the
+    variable called `hyg_fresh`; user code sits in a branch expression, a block operand, a deferred step, a hoisted block and
+    the handler.  Both must give the same value.  Returns the number of programs run (None: did not compile)."""
+    macros = []
+    for k, names in NAMES.items():
+        if kinds is None or k in kinds:
+            macros += [(k, n) for n in names]
+    fns, index = [], []
+    for ci, x in enumerate(candidates):
+        for (k, name) in macros:
+            is_async, is_try = k[1] == "1", k[3] == "1"
+            body = (HYG_ASYNC_TRY if is_try else HYG_ASYNC) if is_async else (HYG_TRY if is_try else HYG_SYNC)
+            pid = "hyg%d_%s" % (ci, name)
+
+            def call(var):
+                m = "%s! { %s }" % (name, body.format(X=var))
+                return "hyg_rt().block_on(async move { %s.await })" % m if is_async else m
+            fns.append("fn %s() -> String {\n    let a = { let %s = 5i64; format!(\"{:?}\", %s) };\n"
+                       "    let b = { let hyg_fresh = 5i64; format!(\"{:?}\", %s) };\n"
+                       "    if a == b { format!(\"same {}\", a) } else { format!(\"DIFF named={} fresh={}\", a, b) }\n}\n"
+                       % (pid, x, call(x), call("hyg_fresh")))
+            index.append((pid, x, name, "%s! { %s }" % (name, body.format(X=x))))
+    src = ("#![allow(unused, non_snake_case)]\n#[macro_use] extern crate join;\n" + "".join(fns)
+           + HYG_MAIN % ", ".join('("%s", %s as fn() -> String)' % (i[0], i[0]) for i in index))
+    ok, out, log = build_and_run("k2hygiene", src, with_async=True)
+    if not ok:
+        bad, excerpt = blame_compile_error(src, log)
+        who = [i for i in index if i[0] == bad]
+        if who:
+            for (pid, x, name, prog) in who[:3]:
+                ctx.out.violation({"macro": name, "program": "let %s = 5i64; %s" % (x, prog), "compiler": excerpt,
+                                   "what": "a program whose macro body uses the caller's variable `%s` no longer compiles (the same program "
+                                           "with the variable renamed does): the expansion binds that name around user code" % x},
+                                  found_input=True, signature="hygiene-" + x)
+        else:
+            ctx.broken.append(("hygiene programs do not compile against the current macros", log[-3000:]))
+        return None
+    lines = dict(l.split("\t", 1) for l in out.splitlines() if "\t" in l)
+    for (pid, x, name, prog) in index:
+        v = lines.get(pid, "MISSING")
+        if not v.startswith("same"):
+            ctx.out.violation({"macro": name, "program": "let %s = 5i64; %s" % (x, prog), "observed": v[:600],
+                               "what": "the macro body sees something else than the caller's variable `%s`: the expansion binds that name "
+                                       "around user code (the same program with the variable renamed gives the other value)" % x},
+                              found_input=True, signature="hygiene-" + x)
+    ctx.evals += len(index)
+    return len(index)
 
 
 # ------------------------------------------------------------------------------------------------
@@ -1424,6 +1545,29 @@ fn main() {
     let ib = join! { 5i64 ?? |v: &i64| looks.set(looks.get() + *v) -> inc, 2i64 ~?? |_: &i64| { } };
     let it = try_join! { Some(7i64) ?? |v: &Option<i64>| looks.set(looks.get() + v.unwrap_or(0)) |> inc };
     println!("inspectborrow\t{:?} {:?} {}", ib, it, looks.get());
+    // long chains in the non-spawning async macros: still no Send bound (an `Rc` flows through 12 combinators of one step, a
+    // `Cell` on the caller's stack is borrowed by 10 closures) and no allocation beyond the one outer `Box::pin` of the macro
+    let long_rc = futures::executor::block_on(join_async! { futures::future::ready(Rc::new(1i64))
+        |> |r: Rc<i64>| r |> |r: Rc<i64>| r |> |r: Rc<i64>| r |> |r: Rc<i64>| r |> |r: Rc<i64>| r |> |r: Rc<i64>| r
+        |> |r: Rc<i64>| r |> |r: Rc<i64>| r |> |r: Rc<i64>| r |> |r: Rc<i64>| r |> |r: Rc<i64>| r |> |r: Rc<i64>| *r + 1 });
+    let hits = std::cell::Cell::new(0i64);
+    let hr = &hits;     // the macro's future is an `async move` block: it takes the reference, not the cell
+    let long_cell = futures::executor::block_on(try_join_async! { futures::future::ok::<i64, i64>(1)
+        |> |r: Result<i64, i64>| { hr.set(hr.get() + 1); r } |> |r: Result<i64, i64>| { hr.set(hr.get() + 1); r }
+        |> |r: Result<i64, i64>| { hr.set(hr.get() + 1); r } |> |r: Result<i64, i64>| { hr.set(hr.get() + 1); r }
+        |> |r: Result<i64, i64>| { hr.set(hr.get() + 1); r } |> |r: Result<i64, i64>| { hr.set(hr.get() + 1); r }
+        |> |r: Result<i64, i64>| { hr.set(hr.get() + 1); r } |> |r: Result<i64, i64>| { hr.set(hr.get() + 1); r }
+        |> |r: Result<i64, i64>| { hr.set(hr.get() + 1); r } |> |r: Result<i64, i64>| { hr.set(hr.get() + 1); r },
+        futures::future::ok::<i64, i64>(2) });
+    println!("asynclong\t{} {:?} {}", long_rc, long_cell, hits.get());
+    let _warm = futures::executor::block_on(join_async! { futures::future::ready(0i64) |> inc, futures::future::ready(0i64) });
+    let a0 = ALLOCS.load(Ordering::SeqCst);
+    let short = futures::executor::block_on(join_async! { futures::future::ready(1i64) |> inc, futures::future::ready(2i64) });
+    let a1 = ALLOCS.load(Ordering::SeqCst);
+    let long = futures::executor::block_on(join_async! { futures::future::ready(1i64) |> inc |> inc |> inc |> inc |> inc |> inc |> inc |> inc |> inc
+        |> inc |> inc |> inc, futures::future::ready(2i64) ~|> inc ~|> inc });
+    let a2 = ALLOCS.load(Ordering::SeqCst);
+    println!("asyncalloc\t{} {}\t{:?} {:?}", a1 - a0, a2 - a1, short, long);
 }
 '''
 COST_EXPECTED = {
@@ -1437,6 +1581,8 @@ COST_EXPECTED = {
     "wrapborrow": "Some(3) 1",
     "wrapmoveonly": "Some((4, 2)) 1 ab",
     "inspectborrow": "(6, 2) Some(8) 12",
+    "asynclong": "2 Ok((1, 2)) 10",
+    "asyncalloc": "1 1\t(2, 2) (13, 4)",
 }
 
 
